@@ -210,6 +210,7 @@ def write_replay(pid, finding):
         "sem": tr["sem"],
         "sharing": tr.get("sharing", False),
         "kind": tr.get("kind", ""),
+        "job": tr.get("job"),
         "ops": tr.get("ops"),
         "cfg": tr.get("cfg"),
         "events_before": [{k: v for k, v in e.items() if k not in ("ch", "post")} for e in tr["events"][max(0, finding.l - 6):finding.l - 1]]
